@@ -307,7 +307,7 @@ func GenRelayPlan(r *sim.Rng, prof RelayProfile) RelayPlan {
 				p.AudioCodec = media.SoundAAC
 			}
 			if p.AudioCodec != 0 && r.Bool(0.15) {
-				p.AudioCodec = []int{media.SoundG711A, media.SoundG711U}[r.Intn(2)]
+				p.AudioCodec = []int{media.SoundG711A, media.SoundG711U, media.SoundOpus}[r.Intn(3)]
 			}
 			p.AacSr = []int{4, 4, 3, 11, 0, 8}[r.Intn(6)]
 			p.ChunkSize = []int{0, 0, 4096, 1, 97, 60000, 128}[r.Intn(7)]
